@@ -230,3 +230,10 @@ register("C11", c11.run, c11.replay)
 # ---------------------------------------------------------------- C12: incremental builds
 import c12
 register("C12", c12.run, c12.replay)
+
+
+# ---------------------------------------------------------------- C09, C13 (CLI sweeps)
+import cli_sweeps
+register("C13", cli_sweeps.run_c13, cli_sweeps.replay_c13)
+register("C09", cli_sweeps.run_c09, cli_sweeps.replay_c09)
+register("C19", cli_sweeps.run_c19, cli_sweeps.replay_c19)
